@@ -158,6 +158,21 @@ def _trig(eng, st, theta, n, which):
         if n.denominator != 1:
             raise Unsupported("non-integer multiple in cosn/sinn")
         n = int(n)
+    # cos is even and sin is odd in theta: normalise a negated angle
+    if isinstance(theta, Sym):
+        tz = theta.t
+        neg = None
+        if z3.is_app(tz) and tz.decl().kind() == z3.Z3_OP_UMINUS:
+            neg = tz.arg(0)
+        elif z3.is_app(tz) and tz.decl().kind() == z3.Z3_OP_MUL and tz.num_args() == 2 and z3.is_rational_value(tz.arg(0)) and tz.arg(0).numerator_as_long() < 0:
+            c_ = tz.arg(0)
+            neg = tz.arg(1) if (c_.numerator_as_long() == -1 and c_.denominator_as_long() == 1) else (z3.RealVal(str(-Fraction(c_.numerator_as_long(), c_.denominator_as_long()))) * tz.arg(1))
+        if neg is not None:
+            r = _trig(eng, st, Sym(neg, "real"), n, which)
+            return r if which == "cosn" else V.neg(r)
+    elif V.is_concrete_num(theta) and theta < 0:
+        r = _trig(eng, st, -theta, n, which)
+        return r if which == "cosn" else V.neg(r)
     fc = _uf(eng, "cosn", R, I, R)
     fs = _uf(eng, "sinn", R, I, R)
     tt, nt = V.real_term(theta), V.int_term(n)
@@ -441,7 +456,7 @@ def spec_Sum(eng, st, lo, hi, fn):
         ckey = ("cx", z3.simplify(V.real_term(pv.re)).sexpr(), z3.simplify(V.real_term(pv.im)).sexpr())
     else:
         ckey = ("re", z3.simplify(V.real_term(pv)).sexpr())
-    hkey = _keyhash(ckey)
+    hkey = _keyhash((ckey, tuple("i" if V.is_intlike(a) else "r" for a in args)))
     sorts = [(I if V.is_intlike(a) else R) for a in args]
     argts = [(V.int_term(a) if V.is_intlike(a) else V.real_term(a)) for a in args]
     kinds = ["int" if V.is_intlike(a) else "real" for a in args]
@@ -489,20 +504,66 @@ class _PyFn:
 _orig_abstract = abstract
 
 
+def _free_consts(terms, exclude):
+    out = {}
+    st_ = list(terms)
+    seen = set()
+    while st_:
+        x = st_.pop()
+        if x.get_id() in seen:
+            continue
+        seen.add(x.get_id())
+        if z3.is_quantifier(x):
+            st_.append(x.body())
+        elif z3.is_app(x):
+            if x.num_args() == 0 and x.decl().kind() == z3.Z3_OP_UNINTERPRETED and x.sort().kind() in (z3.Z3_INT_SORT, z3.Z3_REAL_SORT):
+                if x.get_id() not in exclude:
+                    out[x.decl().name()] = x
+            st_.extend(x.children())
+    return [out[k] for k in sorted(out)]
+
+
+class _TermFn(_PyFn):
+    """summand given as z3 term(s) in a canonical index, with its scalar constants as parameters"""
+
+    def __init__(self, terms, n0, consts, args, is_cx):
+        self.terms, self.n0, self.consts, self.args, self.is_cx = terms, n0, consts, args, is_cx
+        _PyFn._count[0] += 1
+        self.uid = _PyFn._count[0]
+        self.name = f"termfn{self.uid}"
+
+    def body(self, n):
+        subs = [(self.n0, V.int_term(n))] + [(c, (V.int_term(a) if c.sort().kind() == z3.Z3_INT_SORT else V.real_term(a))) for c, a in zip(self.consts, self.args)]
+        ts = [z3.substitute(t, *subs) for t in self.terms]
+        if self.is_cx:
+            return Cx(V.mk(ts[0], "real"), V.mk(ts[1], "real"))
+        return V.mk(ts[0], "real")
+
+
 def abstract(eng, st, v, depth=0):  # noqa: F811  (extends the function above)
+    if isinstance(v, _TermFn):
+        args = list(v.args)
+
+        def rb(xs, v=v):
+            return _TermFn(v.terms, v.n0, v.consts, [xs.pop(0) for _ in v.consts], v.is_cx)
+
+        return ("termfn", tuple(t.sexpr() for t in v.terms), tuple(str(c) for c in v.consts)), args, rb
     if isinstance(v, _PyFn):
-        # keyed by the canonical summand term; no parameters
-        n0 = Sym(z3.Int("n!canon"), "int")
+        # a program-computed summand: every scalar constant of its term becomes a parameter
+        # of the sum (so that it is bound correctly under quantifiers and by congruence)
+        n0 = z3.Int("n!canon")
         st.ghost += 1
+        nf_ = len(st.facts)
         try:
-            t = v.body(n0)
+            t = v.body(Sym(n0, "int"))
         finally:
             st.ghost -= 1
-        if isinstance(t, Cx):
-            k = ("pyfn", V.real_term(t.re).sexpr(), V.real_term(t.im).sexpr())
-        else:
-            k = ("pyfn", V.real_term(t).sexpr())
-        return k, [], (lambda xs: v)
+            del st.facts[nf_:]
+        is_cx = isinstance(t, Cx)
+        terms = [V.real_term(t.re), V.real_term(t.im)] if is_cx else [V.real_term(V.to_real(t))]
+        consts = _free_consts(terms, {n0.get_id()})
+        tf = _TermFn(terms, n0, consts, [Sym(c, "int" if c.sort().kind() == z3.Z3_INT_SORT else "real") for c in consts], is_cx)
+        return abstract(eng, st, tf, depth)
     return _orig_abstract(eng, st, v, depth)
 
 
@@ -556,21 +617,21 @@ def spec_exists(eng, st, lo, hi, fn):
 # ----------------------------------------------------------------------------- saturation
 
 
-def _apps(t, acc, seen):
+def _apps(t, acc, seen, consts=False):
     if t.get_id() in seen:
         return
     seen.add(t.get_id())
     if z3.is_quantifier(t):
-        _apps(t.body(), acc, seen)
+        _apps(t.body(), acc, seen, consts)
         return
     if z3.is_app(t):
         d = t.decl()
-        if d.kind() == z3.Z3_OP_UNINTERPRETED and t.num_args() > 0:
+        if d.kind() == z3.Z3_OP_UNINTERPRETED and (t.num_args() > 0 or consts):
             acc.setdefault(d.name(), []).append(t)
         elif d.kind() == z3.Z3_OP_TO_INT:
             acc.setdefault("%to_int", []).append(t)
         for ch in t.children():
-            _apps(ch, acc, seen)
+            _apps(ch, acc, seen, consts)
 
 
 def _has_bound(t):
@@ -594,7 +655,7 @@ def _diff_is(a, b, c):
     return z3.is_int_value(d) and d.as_long() == c
 
 
-def saturate(eng, formulas, rounds=3, unroll_limit=6, level=0):
+def saturate(eng, formulas, rounds=3, unroll_limit=6, level=0, goal=None):
     """definitional unfolding of Sum / cosn / sinn / sqrt at the indices the VC mentions.
     Returns a list of extra hypotheses (all instances of definitions or of the
     assumed axioms of section 3.2)."""
@@ -603,6 +664,27 @@ def saturate(eng, formulas, rounds=3, unroll_limit=6, level=0):
     scratch = eng.new_scratch_state()
     eng.cur_state = scratch
     forms = list(formulas)
+    goal_ids = None
+    if goal is not None:
+        gacc, gseen = {}, set()
+        for g in goal:
+            _apps(g, gacc, gseen, True)
+        goal_ids = {a.get_id() for apps in gacc.values() for a in apps}
+        # closure under co-occurrence: a sum mentioned together with a goal-related
+        # application in some hypothesis is itself related (three hops)
+        per_form = []
+        for f in forms:
+            facc, fseen = {}, set()
+            _apps(f, facc, fseen, True)
+            per_form.append({a.get_id() for apps in facc.values() for a in apps})
+        for _hop in range(3):
+            grew = False
+            for ids in per_form:
+                if ids & goal_ids and not ids <= goal_ids:
+                    goal_ids |= ids
+                    grew = True
+            if not grew:
+                break
     for _ in range(rounds):
         acc = {}
         seen = set()
@@ -629,7 +711,7 @@ def saturate(eng, formulas, rounds=3, unroll_limit=6, level=0):
                     if tag not in done:
                         done.add(tag)
                         new.extend(_sum_empty(eng, scratch, nm, reg, a))
-                        if level >= 1:
+                        if level >= 1 and (goal_ids is None or a.get_id() in goal_ids):
                             new.extend(_sum_sign(eng, scratch, nm, reg, a))
                         if z3.is_int_value(d) and 0 < d.as_long() <= unroll_limit:
                             new.extend(_sum_unroll(eng, scratch, nm, reg, a, d.as_long()))
@@ -663,9 +745,10 @@ def saturate(eng, formulas, rounds=3, unroll_limit=6, level=0):
                 tag = ("ext", a.get_id(), b.get_id())
                 if tag in done or npairs > 80:
                     continue
+                related = goal_ids is None or a.get_id() in goal_ids or b.get_id() in goal_ids
                 done.add(tag)
                 npairs += 1
-                new.extend(_sum_ext(eng, scratch, nm1, reg1, a, nm2, reg2, b))
+                new.extend(_sum_ext(eng, scratch, nm1, reg1, a, nm2, reg2, b, conj=(level >= 1 and related)))
         # --- trig: angle addition between adjacent multiples
         cs = acc.get("cosn", []) + acc.get("sinn", [])
         occ = {}
@@ -810,7 +893,7 @@ def _sum_sign(eng, st, nm, reg, a):
     return out
 
 
-def _sum_ext(eng, st, nm1, reg1, a, nm2, reg2, b):
+def _sum_ext(eng, st, nm1, reg1, a, nm2, reg2, b, conj=False):
     args1, lo, hi, f1 = _sum_parts(eng, nm1, reg1, a)
     args2, _, _, f2 = _sum_parts(eng, nm2, reg2, b)
     n0 = eng.fresh("w", "int")
@@ -820,7 +903,21 @@ def _sum_ext(eng, st, nm1, reg1, a, nm2, reg2, b):
     s2 = _sum_app(eng, nm2, reg2, args2, lo, hi)
     differ = z3.Or(*[x != y for x, y in zip(b1, b2)])
     same = z3.And(*[x == y for x, y in zip(s1, s2)])
-    return [z3.Or(z3.And(lo <= n0.t, n0.t < hi, differ), same)]
+    out = [z3.Or(z3.And(lo <= n0.t, n0.t < hi, differ), same)]
+    if conj:
+        # L3/L4: summands that are pointwise conjugate (complex) or negated (real) give
+        # conjugate / negated sums
+        n1 = eng.fresh("wc", "int")
+        c1 = _val_terms(call_fn(eng, st, f1, [n1]), reg1["is_cx"])
+        c2 = _val_terms(call_fn(eng, st, f2, [n1]), reg2["is_cx"])
+        if reg1["is_cx"]:
+            d2 = z3.Or(c1[0] != c2[0], c1[1] != -c2[1])
+            sm = z3.And(s1[0] == s2[0], s1[1] == -s2[1])
+        else:
+            d2 = c1[0] != -c2[0]
+            sm = s1[0] == -s2[0]
+        out.append(z3.Or(z3.And(lo <= n1.t, n1.t < hi, d2), sm))
+    return out
 
 
 def _sum_unroll(eng, st, nm, reg, app, d):
